@@ -44,7 +44,7 @@ def single(cls, self_fields=None, requires=(), criterion=None, crit_props="C06",
   be = list(BODY_END if body_end is None else body_end)
   if criterion:
     be.append((crit_props, f"g_res == ({criterion})"))
-  loops = {0: dict(invariant=list(INV), head=list(HEAD), body_end=be)}
+  loops = {0: dict(invariant=list(INV), head=list(HEAD), body_end=be, independent=True)}
   if loops_extra:
     for k, v in loops_extra.items():
       if k == 0:
@@ -120,7 +120,7 @@ def aggregate(cls, head_n, on_att, crit, extra_fields=None, requires=()):
       loops={0: dict(invariant=list(INV) + ["len(gcds) == len(artifacts)",
                                             "forall(j, 0, len(artifacts), gcds[j] >= 1 and "
                                             f"({head_n.replace('[_i0]', '[j]')}) % gcds[j] == 0)"],
-                     head=[h for h in HEAD if "g_N" not in h] + [f"g_N = {head_n}"], body_end=be)},
+                     head=[h for h in HEAD if "g_N" not in h] + [f"g_N = {head_n}"], body_end=be, independent=True)},
       on_call={SET: [s.replace("key.test_info", "artifacts[_i0].test_info") for s in ON_SET],
                ATT: [s.replace("key.test_info", "artifacts[_i0].test_info") for s in on_att]},
       return_hints=list(RET), total=True, props=["C01", "C03", "C16", "C17", "C18"])
